@@ -12,7 +12,21 @@ use std::time::{Duration, Instant};
 
 pub const TIMEOUT_MS: u64 = 300;
 
+/// A port that is free right now. Candidates are drawn from a per-process sequence (instead of the kernel's shared
+/// ephemeral counter) so that runner processes working in parallel do not hand each other the same port between this
+/// probe and the server's own bind.
 pub fn free_port() -> u16 {
+    use std::sync::atomic::{AtomicU32, Ordering};
+    static NEXT: AtomicU32 = AtomicU32::new(0);
+    let pid = std::process::id();
+    for _ in 0..2000 {
+        let k = NEXT.fetch_add(1, Ordering::Relaxed);
+        let port = 20000 + ((pid.wrapping_mul(7919).wrapping_add(k.wrapping_mul(104729))) % 30000) as u16;
+        if let Ok(l) = TcpListener::bind(("0.0.0.0", port)) {
+            drop(l);
+            return port;
+        }
+    }
     let l = TcpListener::bind("127.0.0.1:0").unwrap();
     l.local_addr().unwrap().port()
 }
@@ -55,7 +69,12 @@ pub fn server() -> u16 {
                     }
                 }
                 if TcpStream::connect(("127.0.0.1", port)).is_ok() {
-                    return port;
+                    // make sure it is OUR server that answered: run() must not have returned (bind failure)
+                    std::thread::sleep(Duration::from_millis(10));
+                    if rx.try_recv().is_err() {
+                        return port;
+                    }
+                    break;
                 }
                 std::thread::sleep(Duration::from_millis(5));
             }
